@@ -83,24 +83,57 @@ def spec (cs : Case) (i : Impl) : Bool :=
     && ownOk (implDownToks i)
     && termOk cs i t
 
-/-- kind `upf` (proxy6, B): an upstream reset delivered by a sender filter while the worker runs the UpFilter phase, after
-the head of a streamed response was accepted and before anything was forwarded.  The downstream machine has no label for
-it yet (stated partial: no model side, `A` always); the predicate is the declarative part of `spec` that does not need the
-schedule: sender protocol respected, the exchange FINISHED with a complete reply (end of stream), cleaned exactly once,
-upstream gauge back at 0 — theorems `sender_once`, `outcome_total`, `clean_once` state this for every label the machine has. -/
-def upfRun (impl : List String) : String :=
-  match parseImpl impl with
-  | some i =>
+/-- the worker runs until it is INSIDE the UpFilter phase (its sender filters run), blocks, or returns -/
+def settleUpf (c : Cfg) : Nat → S → S
+  | 0, s => s
+  | n + 1, s =>
+    if !s.running then s
+    else if s.phase == .WaitNotify && !s.notify then s
+    else if bodyWait s then s
+    else if s.phase == .UpFilter then s
+    else settleUpf c n (work c s)
+
+/-- [proxy7] the model side of kind `upf`: the request is sent and the worker parked; the head of a streamed response of
+attempt 0 arrives (`upRespS`); the worker wakes and enters the UpFilter phase; there the machine label `reset during
+UpFilter` (`upReset 0 reason` while `upfRunning`) is applied — what the scripted sender filter of the harness does —; the
+worker runs on.  `:R` (the implementation created a second attempt): that attempt is answered 200. -/
+def upfModel (c : Cfg) (ar aq code : Nat) (d t : Bool) (reason : MosnVerif.Gen.ProxyReason.Reason) (retried : Bool) : S :=
+  let s := settle c fuel (init ar aq)
+  let s := settle c fuel (step c s .work)
+  let s := step c s (.upRespS 0 code d t)
+  let s := settleUpf c fuel s
+  let s := step c s (.upReset 0 reason)
+  let s := settle c fuel s
+  if retried then settle c fuel (step c s (.upResp 1 200 false false)) else s
+
+/-- kind `upf` (proxy6 B, model-compared since proxy7): an upstream reset delivered by a sender filter while the worker runs
+the UpFilter phase, after the head of a streamed response was accepted and before anything was forwarded.  `A` = the
+machine (label `reset during UpFilter`) produces the implementation's trace, ledger and done flag.  The predicate is the
+declarative part of `spec` that does not need the schedule: sender protocol respected, the exchange FINISHED with a complete
+reply (end of stream), cleaned exactly once, gauges back at 0 — theorems `sender_once`, `outcome_total`, `clean_once`. -/
+def upfRun (caseToks impl : List String) : String :=
+  let model : Option String :=
+    match caseToks with
+    | ["upf", cfgT, ambT, evT] =>
+      match parseCfg cfgT, parseAmb ambT, evT.splitOn ":" with
+      | some c, some (ar, aq), codeT :: dtT :: reasonT :: rest =>
+        match codeT.toNat?, parseDT dtT, reasonOfName reasonT with
+        | some code, some (d, t), some r => some s!"{render (upfModel c ar aq code d t r (rest == ["R"]))} tm=-"
+        | _, _, _ => none
+      | _, _, _ => none
+    | _ => none
+  match model, parseImpl impl with
+  | some out, some i =>
     match implTrace i with
     | some t =>
       let ok := senderOk t && i.done && t.any isEos && nLog t == 1 && i.up == 0 && i.down == 0 && ownOk (implDownToks i)
-      s!"A {if ok then "S" else "V"} -"
+      s!"{if out == joinWith " " impl then "A" else "D"} {if ok then "S" else "V"} {out}"
     | none => "E E bad-upf"
-  | none => "E E bad-upf"
+  | _, _ => "E E bad-upf"
 
 def run (caseToks impl : List String) : String :=
   if caseToks.head? == some "mc" then DownstreamMC.run caseToks else
-  if caseToks.head? == some "upf" then upfRun impl else
+  if caseToks.head? == some "upf" then upfRun caseToks impl else
   match parseCase caseToks, parseImpl impl with
   | some cs, some i =>
     let out := renderOut cs
